@@ -22,7 +22,7 @@ Definition abs (s : store) (a : agent) : view :=
 (* block keys a hook re-synchronises on the copy (the property allows a re-synchronised target) *)
 Definition hook_keys (h : hook) : list key :=
   match h with
-  | HSync e t => [(t, cEnc); (t, cHead)]
+  | HSync e t => [(t, cEnc); (t, cHead); (t, cBuf)]
   | HShare p others => flat_map (fun o => [(o, cHenc); (o, cEnc)]) others
   | HBandit => [kExt]
   end.
